@@ -84,6 +84,10 @@ where
 {
     fn drop(&mut self) {
         self.scalar = <<C::Group as Group>::Field as Field>::zero();
+        // The scalar is never read again and its storage is about to be
+        // released, so the store above is a dead store that the optimizer is
+        // free to remove. Make the compiler assume the zeroed value is used.
+        core::hint::black_box(&mut self.scalar);
     }
 }
 
